@@ -298,6 +298,49 @@ def run(ctx):
                     how if dep else 'the same witness value is passed to every child: no later check can distinguish two actions of one infoset',
                     breaks='a player may forget their own action: such trees are accepted and evaluated incorrectly')
 
+    # ---- R7b the witness written for a child names a decision: always Some((infoset, action))
+    rule = 'C11.recall-witness-some'
+    import e9 as _e9
+    n_w = 0
+    for g in [f] + closures:
+        for bj, st, pl, rhs in q.stores(g):
+            if not st['pl']['ty'].startswith('std::option::Option<(usize, usize)') and 'Option<' not in st['pl']['ty']:
+                continue
+            if ('shared', 'prev_infosets') not in _e9.provenance(lib, g, pl) and 'prev_infosets' not in facts.show(pl):
+                continue
+            n_w += 1
+            r = strip_refs(rhs)
+
+            def may_be_none(x, depth=0, g=g):
+                # None / not known to be Some: True, definitely Some: False, unknown: None
+                x = strip_refs(x)
+                if x[0] == 'agg' and x[1].endswith('Option::Some'):
+                    return False
+                if x[0] == 'agg' and x[1].endswith('Option::None'):
+                    return True
+                if x[0] == 'call' and short(x[1]) in ('map', 'and_then', 'filter', 'then', 'then_some', 'or', 'xor', 'zip') and 'option' in x[1].lower() and x[2]:
+                    inner = may_be_none(x[2][0], depth + 1, g)
+                    return True if inner is True or short(x[1]) in ('and_then', 'filter') else inner
+                if x[0] == 'var' and depth < 4:
+                    vals = [may_be_none(v, depth + 1, g) for _, _, v in q.multi_def_values(g, x[1])]
+                    if vals and any(v is True for v in vals):
+                        return True
+                    if vals and all(v is False for v in vals):
+                        return False
+                if x[0] in ('upvar',) and g.is_closure and depth < 4:
+                    par_, agg_ = q.parent_agg(lib, g)
+                    if par_ is not None and agg_ is not None:
+                        return may_be_none(q.simplify(q.subst_upvars(lib, g, x)), depth + 1, par_)
+                return None
+            verdict_ = may_be_none(r)
+            if verdict_ is None:
+                ctx.anchor_lost(rule, 'init_recurse: value written to the recall witness', facts.show(r)[:60])
+            else:
+                ctx.verdict(verdict_ is False, rule, '%s:%s' % (rule, top), 'the recall witness handed to a child is always Some((infoset, action)) of a real decision: a collapsed single-action node must leave the entry untouched, never clear it',
+                            g.where(bj), 'written value %s' % facts.show(r)[:70], breaks='a forced move between two infosets of a player erases what the player remembers: valid games are rejected (ImperfectRecall) or best responses are evaluated in the wrong order')
+    if n_w == 0:
+        ctx.anchor_lost(rule, 'init_recurse: store to the recall witness')
+
     # ---- R8 terminal payoff
     rule = 'C11.terminal-finite'
     terms = [(bi, st, e) for bi, st, e in q.agg_sites(f, 'Node', 'Terminal')]
